@@ -187,6 +187,7 @@ def check_props(prop_id):
     for g in needs:
         if lines.get(g) != "ok":
             info["log"] = "translator harness/gen_tables.py (%s table) failed on the current source: %s" % (g, lines.get(g, "no status"))
+            info["failed_at"] = {"line": None, "statement": "every theorem over the '%s' translation (the translator does not recognise the current source: %s)" % (g, lines.get(g, "no status")[:200])}
             info["wall_s"] = time.time() - t0
             return info
     src = os.path.join(COQ, "props", prop_id + ".v")
@@ -205,6 +206,7 @@ def check_props(prop_id):
                                 "-Q", d, "PGAprops", os.path.join(d, os.path.basename(e))], capture_output=True, text=True)
             if r.returncode != 0:
                 info["log"] = "definitions regenerated from the source (%s) do not compile: %s" % (e, (r.stdout + r.stderr)[-2000:])
+                info["failed_at"] = {"line": None, "statement": "every theorem over %s (the regenerated definitions are ill-typed)" % e}
                 info["wall_s"] = time.time() - t0
                 return info
         # a copy with Print Assumptions appended for EVERY theorem, so that none is overlooked
@@ -215,6 +217,17 @@ def check_props(prop_id):
                             "-Q", d, "PGAprops", tmp], capture_output=True, text=True)
     info["ok"] = r.returncode == 0
     info["log"] = (r.stdout + r.stderr)[-3000:] if r.returncode != 0 else ""
+    if r.returncode != 0:
+        # name the theorem whose proof no longer checks: the last Theorem / Lemma / Example starting at or before the reported line
+        m = re.search(r'File "[^"]*", line (\d+)', r.stderr)
+        if m:
+            ln = int(m.group(1))
+            name = None
+            for k, line in enumerate(text.splitlines(), 1):
+                mm = re.match(r"\s*(?:Theorem|Lemma|Corollary|Example|Definition|Fixpoint)\s+([A-Za-z0-9_']+)", line)
+                if mm and k <= ln:
+                    name = mm.group(1)
+            info["failed_at"] = {"line": ln, "statement": name}
     # Print Assumptions output: either "Closed under the global context" or "Axioms:\n name : type"
     tail = r.stdout
     closed = len(re.findall(r"Closed under the global context", tail))
@@ -298,8 +311,9 @@ class Report:
             # a proof obligation no longer checks and no failing input was found
             path = os.path.join(VERIF, "replays", "%s-proof.json" % self.prop_id)
             with open(path, "w") as f:
-                json.dump({"property": self.prop_id, "broken": proof.get("file"), "log": proof.get("log", "")}, f, indent=1)
-            self.violations.append(("proof", path, "proof obligation no longer checks no-failing-input-found"))
+                json.dump({"property": self.prop_id, "broken": proof.get("file"), "theorem_that_no_longer_checks": (proof.get("failed_at") or {}).get("statement"),
+                           "failed_at": proof.get("failed_at"), "generated_definitions": proof.get("generated"), "log": proof.get("log", "")}, f, indent=1)
+            self.violations.append(("proof", path, "proof obligation %s no longer checks no-failing-input-found" % ((proof.get("failed_at") or {}).get("statement") or "(see replay file)")))
         obligations = len(proof.get("theorems", []))
         cov = {
             "evaluations": self.evaluations,
